@@ -42,14 +42,15 @@ COLL == "COLL"
 Obj == {"m1", "m2", "n1", "k1", "k2", "f1", "f2", "x1", "a1", "a2", "a3"}
 AliasObj == {"a1", "a2", "a3"}
 NameOf == [m1 |-> "m", m2 |-> "m", n1 |-> "n", k1 |-> "K", k2 |-> "K", f1 |-> "f", f2 |-> "f", x1 |-> "x",
-           a1 |-> "a", a2 |-> "b", a3 |-> "K"]
+           a1 |-> "a", a2 |-> "a", a3 |-> "K"]
 KindOf == [m1 |-> "module", m2 |-> "module", n1 |-> "module", k1 |-> "class", k2 |-> "class", f1 |-> "function",
            f2 |-> "function", x1 |-> "attribute", a1 |-> "alias", a2 |-> "alias", a3 |-> "alias"]
 IsStub == [o \in Obj |-> o = "m2"]             \* filepath suffix .pyi
-Names == {"m", "n", "K", "f", "x", "a", "b"}
+\* (a1 and a2 share a name, like k1/k2 and f1/f2: an alias can be deleted and re-created at the same key)
+Names == {"m", "n", "K", "f", "x", "a"}
 Cont == {COLL, "m1", "m2", "n1", "k1", "k2"}    \* containers whose members dict is real state
 \* initial target paths the aliases may be created with
-TargetPaths == [a1 : {<<"m", "K">>}, a2 : {<<"m", "K", "f">>, <<"m", "a">>, <<"n", "K">>, <<"m">>}, a3 : {<<"m", "K">>}]
+TargetPaths == [a1 : {<<"m", "K">>}, a2 : {<<"m", "K", "f">>, <<"m", "a">>, <<"m">>, <<"m", "K">>}, a3 : {<<"m", "K">>}]
 
 CanHold(c, v) ==
   CASE c = COLL -> KindOf[v] = "module"
@@ -158,6 +159,17 @@ Detached(v) == ~IsMember(v)
 \* aliases handed to the API are unresolved or resolved to a non-alias (chains are Alias.tla's business)
 SimpleAlias(v) == IF KindOf[v] # "alias" THEN TRUE ELSE IF atarget[v] = Nil THEN TRUE ELSE KindOf[atarget[v]] # "alias"
 
+\* Removing (deleting or replacing) a resolved alias never unregisters it from its target: the removed
+\* alias stays in `target.aliases`, a later replacement of the target re-targets it too and thereby
+\* re-registers it under its old path - possibly overwriting the entry of the alias that took its place
+\* (the FIXME above DelMembersMixin in mixins.py).  The clean domain does not remove resolved aliases.
+HoldsResolvedAlias(o) ==
+  IF o = Nil THEN FALSE
+  ELSE IF KindOf[o] = "alias" THEN atarget[o] # Nil
+  ELSE IF o \notin Cont THEN FALSE
+  ELSE \E n \in Names : IF members[o][n] = Nil THEN FALSE
+                         ELSE IF KindOf[members[o][n]] = "alias" THEN atarget[members[o][n]] # Nil ELSE FALSE
+
 \* ---- set_member / __setitem__ ---------------------------------------------------------------------------
 \* merge_stubs(member, value) as far as the tree structure goes (annotations/docstrings: Merge.tla):
 \* members that exist only in the stubs module are moved into the regular module by set_member
@@ -202,12 +214,19 @@ Place(op, c, v, producer) ==
       \* producer API, replacement of a non-alias member: every alias listed on the old member is
       \* re-targeted onto the (merged) value, in dictionary order, CyclicAliasError suppressed per alias
       refs == IF producer /\ old # Nil /\ (IF old = Nil THEN FALSE ELSE KindOf[old] # "alias") THEN backrefs[old] ELSE <<>>
+      \* When the value is an alias whose final target is the replaced member itself, `alias.target = value`
+      \* registers the alias in value.aliases = old.aliases - the very dictionary being iterated.  If that
+      \* adds a key (the alias now lives under another path than the one it is listed under), the next step
+      \* of the iteration raises RuntimeError("dictionary changed size during iteration"): the aliases
+      \* handled so far stay re-targeted, nothing else happens (acc[4] = crashed).
+      selfloop == IF old = Nil \/ KindOf[v] # "alias" THEN FALSE ELSE FinalOf(v, 3) = old
       RECURSIVE fold(_, _)
-      fold(acc, i) == IF i > Len(refs) THEN acc
+      fold(acc, i) == IF i > Len(refs) \/ acc[4] THEN acc
                       ELSE LET a == refs[i][2]
                                r == TargetSet(acc[1], acc[2], acc[3], a, keep, Path(a), pv)
-                           IN fold(<<r[1], r[2], r[3]>>, i + 1)
-      r1 == fold(<<atarget, atpath, backrefs>>, 1)
+                               grew == selfloop /\ r[4] = "ok" /\ Len(r[3][old]) > Len(acc[3][old])
+                           IN fold(<<r[1], r[2], r[3], grew>>, i + 1)
+      r1 == fold(<<atarget, atpath, backrefs, FALSE>>, 1)
       m2 == [mg[1] EXCEPT ![c][nm] = keep]
       p2 == IF c = COLL THEN mg[2] ELSE [mg[2] EXCEPT ![v] = c]
       \* Alias.parent setter -> _update_target_aliases (errors suppressed); the new path uses p2
@@ -216,11 +235,17 @@ Place(op, c, v, producer) ==
       br2 == IF KindOf[v] = "alias" /\ c # COLL /\ fin # Nil
                THEN [r1[3] EXCEPT ![fin] = AddRef(@, newpath, v)] ELSE r1[3]
   IN \* re-targeting onto an unresolved alias dereferences it (value.aliases): not a legal value here
-     /\ (IF Len(refs) > 0 /\ KindOf[v] = "alias" THEN atarget[v] # Nil ELSE TRUE)
+     \* (and reads value.path, which needs the alias to have - or have had - a parent)
+     /\ (IF Len(refs) > 0 /\ KindOf[v] = "alias" THEN atarget[v] # Nil /\ parent[v] # Nil ELSE TRUE)
      /\ (IF merging THEN MergeLegal(keep, stubs) ELSE TRUE)
-     /\ members' = m2 /\ parent' = p2 /\ atarget' = r1[1] /\ atpath' = r1[2] /\ backrefs' = br2
-     /\ outcome' = "ok"
-     /\ LogR(op, m2, p2, r1[1], r1[2], br2, "ok", Len(refs) >= 1 \/ merging)
+     /\ (TopDown => ~HoldsResolvedAlias(old))
+     /\ IF r1[4]
+          THEN /\ UNCHANGED <<members, parent>> /\ atarget' = r1[1] /\ atpath' = r1[2] /\ backrefs' = r1[3]
+               /\ outcome' = "RuntimeError"
+               /\ LogR(op, members, parent, r1[1], r1[2], r1[3], "RuntimeError", TRUE)
+          ELSE /\ members' = m2 /\ parent' = p2 /\ atarget' = r1[1] /\ atpath' = r1[2] /\ backrefs' = br2
+               /\ outcome' = "ok"
+               /\ LogR(op, m2, p2, r1[1], r1[2], br2, "ok", Len(refs) >= 1 \/ merging \/ (KindOf[v] = "alias" /\ fin # Nil))
 
 \* a write whose key crosses an alias component: Alias.set_member works on the dictionary freshly
 \* built by Alias.members; the value gets the alias as parent and is stored nowhere
@@ -260,6 +285,7 @@ DelOp(producer) ==
         w == Lookup(root, Front(key))
     IN /\ (root = COLL \/ IsMember(root))
        /\ \/ /\ w.err = "ok" /\ ~w.via /\ w.obj \in Cont /\ members[w.obj][Last(key)] # Nil
+             /\ (TopDown => ~HoldsResolvedAlias(members[w.obj][Last(key)]))
              /\ LET m2 == [members EXCEPT ![w.obj][Last(key)] = Nil]
                 IN /\ members' = m2 /\ UNCHANGED <<parent, atarget, atpath, backrefs>> /\ outcome' = "ok"
                    /\ Log(op, m2, parent, atarget, atpath, backrefs, "ok")
@@ -275,13 +301,16 @@ SetTarget ==
     LET op == [name |-> "set_target", root |-> a, key |-> <<>>, value |-> v]
         r == TargetSet(atarget, atpath, backrefs, a, v, Path(a), Path(v))
     IN /\ a \notin Skip /\ v \notin Skip
-       /\ SimpleAlias(v) /\ (IF KindOf[v] = "alias" /\ v # a THEN atarget[v] # Nil ELSE TRUE)
+       /\ SimpleAlias(v) /\ (IF KindOf[v] = "alias" /\ v # a THEN atarget[v] # Nil /\ parent[v] # Nil ELSE TRUE)
        \* the clean domain sets the target of an unresolved alias only: re-targeting leaves a stale
        \* back-reference on the old target (a later replacement of that old target then hijacks the
        \* alias), and re-targeting the middle link of a chain leaves the outer alias listed on the
        \* old final target only; the free mode explores both
        /\ (TopDown => (atarget[a] = Nil /\ \A b \in AliasObj : atarget[b] # a))
        /\ parent[a] # Nil                       \* Alias.path needs a parent
+       /\ (TopDown => Attached(a))              \* (clean domain: aliases that are in the tree; a removed alias
+                                                \*  still has its parent pointer and would register under a path
+                                                \*  that may now belong to its successor)
        /\ IF r[4] = "Cyclic" THEN Fail(op, "Cyclic")
           ELSE /\ atarget' = r[1] /\ atpath' = r[2] /\ backrefs' = r[3] /\ UNCHANGED <<members, parent>>
                /\ outcome' = "ok" /\ Log(op, members, parent, r[1], r[2], r[3], "ok")
@@ -321,12 +350,17 @@ Seed3Parent == [SeedParent EXCEPT !["a3"] = "n1"]
 Init ==
   /\ \/ 1 \in Seeds /\ members = EmptyMembers /\ parent = [o \in Obj |-> Nil] /\ atarget = [a \in AliasObj |-> Nil]
         /\ backrefs = [o \in Obj |-> <<>>]
-     \/ 2 \in Seeds /\ members = SeedMembers /\ parent = SeedParent /\ atarget = [a \in AliasObj |-> Nil]
+     \* (a2 may have been constructed with an object target - Alias("a", target=k1) - i.e. be resolved
+     \*  before it is ever inserted; its target_path is then the target's path: see Init's last conjunct)
+     \/ 2 \in Seeds /\ members = SeedMembers /\ parent = SeedParent
+        /\ atarget \in {[a \in AliasObj |-> Nil], [a \in AliasObj |-> IF a = "a2" THEN "k1" ELSE Nil]}
         /\ backrefs = [o \in Obj |-> <<>>]
      \/ 3 \in Seeds /\ members = Seed3Members /\ parent = Seed3Parent
-        /\ atarget = [a \in AliasObj |-> IF a \in {"a1", "a3"} THEN "k1" ELSE Nil]
+        /\ atarget \in {[a \in AliasObj |-> IF a \in {"a1", "a3"} THEN "k1" ELSE Nil],
+                         [a \in AliasObj |-> "k1"]}
         /\ backrefs = [o \in Obj |-> IF o = "k1" THEN << <<<<"n", "K">>, "a3">>, <<<<"m", "a">>, "a1">> >> ELSE <<>>]
   /\ atpath \in TargetPaths
+  /\ (atarget["a2"] # Nil => atpath["a2"] = <<"m", "K">>)
   /\ outcome = "ok" /\ lastop = [name |-> "init", root |-> Nil, key |-> <<>>, value |-> Nil]
   /\ hist = IF Gen = "hist" THEN <<[op |-> [name |-> "init", root |-> Nil, key |-> <<>>, value |-> Nil],
                                     post |-> Snapshot(members, parent, atarget, atpath, backrefs, "ok")]>> ELSE <<>>
